@@ -1167,3 +1167,12 @@ N('OP-logical-empty-guard-flipped', ['C15'], 'util.py', '_ufunc_logical_skipna',
 B('NM-array-cast-unchecked', ['C04'], 'index.py', 'Index._loc_to_iloc',
   '                    if key_src.dtype.kind not in DTYPE_INT_KINDS and not (key == key_src).all(): #type: ignore\n                        # a value that is not equal to an integer is not a label\n                        raise KeyError(key_src[key != key_src][0]) #type: ignore\n',
   '', 'I.nomap-negative-label-raises', '_loc_to_iloc')
+
+# ---------------------------------------------------------------------------------- type membership by equality (C07 / C16)
+B('TM-inexact-by-equality', ['C07', 'C16'], 'util.py', 'prepare_iter_for_array',
+  '                if issubclass(value_type, INEXACT_TYPES): # np.float64 is not equal to, but a subclass of, float and np.inexact', '                if value_type in INEXACT_TYPES:',
+  'I.type-membership-by-subclass', 'prepare_iter_for_array')
+B('TM-int-by-equality', ['C07', 'C16'], 'util.py', 'prepare_iter_for_array',
+  'elif issubclass(value_type, INT_TYPES) and value_type not in BOOL_TYPES and abs(v)', 'elif value_type in INT_TYPES and abs(v)', 'I.type-membership-by-subclass', 'prepare_iter_for_array')
+N('TM-isinstance-form', ['C07', 'C16'], 'util.py', 'prepare_iter_for_array',
+  '                if issubclass(value_type, INEXACT_TYPES): # np.float64 is not equal to, but a subclass of, float and np.inexact', '                if isinstance(v, INEXACT_TYPES):')
